@@ -37,6 +37,33 @@ Proof. vm_compute. reflexivity. Qed.
 Lemma wake_discipline_ok : wake_discipline "threadsafe_queue" members_threadsafe_queue methods_threadsafe_queue = true.
 Proof. vm_compute. reflexivity. Qed.
 
+Lemma notify_per_push_ok : notify_per_push methods_threadsafe_queue = true /\ notifications_unconditional = true.
+Proof. vm_compute. auto. Qed.
+
+(* the discipline really demands one notification per push: these variants of push are rejected *)
+Lemma notify_per_push_rejects :
+  let wp := ("wait_and_pop"%string, lookup_ir_nth 1 "wait_and_pop" methods_threadsafe_queue) in
+  notify_per_push [wp; ("push"%string, [Lock "m_mutex"; Write "m_data"; PushBack; Unlock "m_mutex"])] = false /\
+  notify_per_push [wp; ("push2"%string, [Lock "m_mutex"; Write "m_data"; PushBack; Write "m_data"; PushBack; NotifyOne "m_cond"; Unlock "m_mutex"])] = false /\
+  notify_per_push [wp; ("push"%string, [Lock "m_mutex"; NotifyOne "m_cond"; Write "m_data"; PushBack; Unlock "m_mutex"])] = false /\
+  notify_per_push [wp; ("push"%string, [Lock "m_mutex"; Write "m_data"; PushBack; Unlock "m_mutex"; NotifyOne "m_cond"])] = true.
+Proof. vm_compute. auto. Qed.
+
+(* the shape of the destruction protocol in the source: shutdown() is protected (callable from a derived destructor), the
+   handler is a protected pure virtual, the base destructor calls shutdown(), shutdown() sets the flag, wakes the queue and
+   joins every (joinable) worker *)
+Lemma shutdown_protocol_shape :
+  kind_in "x" [] = None /\
+  existsb (fun p => String.eqb (fst p) "shutdown" && match snd p with AProtected => true | _ => false end) access_threaded_dispatcher = true /\
+  existsb (fun p => String.eqb (fst p) "handle_dispatch" && match snd p with AProtected => true | _ => false end) access_threaded_dispatcher = true /\
+  existsb (String.eqb "handle_dispatch") pure_virtual_threaded_dispatcher = true /\
+  lookup_ir "~threaded_dispatcher" methods_threaded_dispatcher = [Call "this" "shutdown"] /\
+  lookup_ir "shutdown" methods_threaded_dispatcher =
+    [Write "m_shutting_down"; Call "m_queue" "wake_up"; Read "m_threads"; JoinAll "m_threads"] /\
+  joins_guarded_by_joinable = true /\
+  kind_in "m_shutting_down" members_threaded_dispatcher = Some KAtomic.
+Proof. vm_compute. repeat split; reflexivity. Qed.
+
 (* ---- tie: the LTS of Model/CxxQueue.v is written for exactly these critical sections *)
 Lemma skeleton_as_modelled :
   lookup_ir "push" methods_threadsafe_queue = [Lock "m_mutex"; Write "m_data"; PushBack; NotifyOne "m_cond"; Unlock "m_mutex"] /\
